@@ -1555,7 +1555,42 @@ def stored_takes(events: List[Event]) -> List[Event]:
             continue
         bi = idxs[0]
         b = events[bi]
-        if T.strip(b.term[2])[0] != "call" or bi + 1 >= len(events):
+        if T.strip(b.term[2])[0] != "call":
+            continue
+        chained = bi >= 1 and events[bi - 1].kind == "store" and events[bi - 1].stmt is b.stmt and events[bi - 1].term[2] == b.term[2] \
+            and events[bi - 1].guards == b.guards and events[bi - 1].iters == b.iters
+        if chained:
+            # `obj.f = x = take()`: one evaluation, two names -- the field is the canonical one
+            st = events[bi - 1]
+            P = st.term[1]
+            root = P
+            while root[0] == "attr":
+                root = root[1]
+            if P[0] != "attr" or root[0] != "var" or root == v:
+                continue
+            stop = len(events)
+            for i in range(bi + 1, len(events)):
+                e = events[i]
+                if (e.kind == "store" and e.term[1] == P) or e.kind == "await" or (e.kind == "bind" and e.term[1] in (v, root)):
+                    stop = i
+                    break
+            m = {v: P}
+            seen_before = set()
+            for i in range(0, bi + 1):
+                seen_before |= set(events[i].guards)
+            in_scope_guards = set()
+            for i in range(bi + 1, min(stop + 1, len(events))):
+                in_scope_guards |= {g for g in events[i].guards if g not in seen_before}
+            for i in range(bi + 1, len(events)):
+                e = out[i]
+                gs = tuple(T.replace(g, m) if g in in_scope_guards else g for g in e.guards)
+                if i < stop:
+                    out[i] = Event(e.idx, e.kind, T.replace(e.term, m), T.replace(e.raw, m), e.node, e.stmt, gs, T.replace(e.iters, m), e.tries, e.awaited, e.extra)
+                elif gs != e.guards:
+                    out[i] = Event(e.idx, e.kind, e.term, e.raw, e.node, e.stmt, gs, e.iters, e.tries, e.awaited, e.extra)
+            changed = True
+            continue
+        if bi + 1 >= len(events):
             continue
         st = events[bi + 1]
         if st.kind != "store" or st.term[2] != v or st.guards != b.guards or st.iters != b.iters:
